@@ -209,22 +209,22 @@ Definition evo_wf (s : evo_state) : Prop :=
 Definition the_table (s : evo_state) : option table :=
   find_table (db_tables (e_db s)) (table_of (e_decl s)).
 
-Lemma find_map_table : forall ts n f t, (forall x, t_name (f x) = t_name x) ->
+Lemma find_map_table : forall ts n f t, (forall x, str_eqb (t_name x) n = true -> t_name (f x) = t_name x) ->
   find_table ts n = Some t ->
   find_table (map (fun x => if str_eqb (t_name x) n then f x else x) ts) n = Some (f t).
 Proof.
   intros ts n f t Hf. induction ts as [|y ts IH]; intro H; [discriminate|].
   cbn in H |- *. destruct (str_eqb (t_name y) n) eqn:E.
-  - inversion H; subst. cbn. rewrite Hf, E. reflexivity.
+  - inversion H; subst. cbn. rewrite (Hf _ E), E. reflexivity.
   - cbn. rewrite E. apply IH. exact H.
 Qed.
 
-Lemma exists_map_table : forall ts n m f, (forall x, t_name (f x) = t_name x) ->
+Lemma exists_map_table : forall ts n m f, (forall x, str_eqb (t_name x) n = true -> t_name (f x) = t_name x) ->
   existsb (fun t => str_eqb (t_name t) m) (map (fun x => if str_eqb (t_name x) n then f x else x) ts)
   = existsb (fun t => str_eqb (t_name t) m) ts.
 Proof.
   intros ts n m f Hf. induction ts as [|y ts IH]; [reflexivity|].
-  cbn. destruct (str_eqb (t_name y) n); [rewrite Hf|]; rewrite IH; reflexivity.
+  cbn. destruct (str_eqb (t_name y) n) eqn:E; [rewrite (Hf _ E)|]; rewrite IH; reflexivity.
 Qed.
 
 Lemma table_of_set_cols : forall dc cs, table_of (set_cols dc cs) = table_of dc.
@@ -261,20 +261,14 @@ Proof.
     set (f := fun t1 : table => {| t_name := table_of (e_decl s);
                                    t_cols := t_cols t1 ++ [dbname_of (d_style (e_decl s)) c];
                                    t_rows := map (fun r => r ++ [znull]) (t_rows t1) |}).
-    assert (Hf : forall x, str_eqb (t_name x) (table_of (e_decl s)) = true -> t_name (f x) = t_name x).
-    { intros x E. apply str_eqb_eq in E. cbn. congruence. }
     assert (F' : find_table (map_table (e_db s) (table_of (e_decl s)) f) (table_of (e_decl s)) = Some (f t)).
-    { unfold map_table. clear -F. induction (db_tables (e_db s)) as [|y ts IH]; [discriminate|].
-      cbn in F |- *. destruct (str_eqb (t_name y) (table_of (e_decl s))) eqn:E.
-      - inversion F; subst. cbn. rewrite str_eqb_refl. reflexivity.
-      - cbn. rewrite E. apply IH. exact F. }
+    { unfold map_table. apply find_map_table; [|exact F].
+      intros x E. apply str_eqb_eq in E. cbn. congruence. }
     split; [reflexivity|]. split.
     + exists (f t). cbn [e_decl e_db db_tables]. rewrite table_of_set_cols. split; [exact F'|]. split.
       * cbn [f t_cols]. rewrite C, class_cols_set_cols, map_app. reflexivity.
       * rewrite table_exists_alt in O |- *. cbn [db_tables]. unfold map_table.
-        rewrite <- O. clear. induction (db_tables (e_db s)) as [|y ts IH]; [reflexivity|].
-        cbn. destruct (str_eqb (t_name y) (table_of (e_decl s))) eqn:E; rewrite IH; [|reflexivity].
-        cbn [f t_name]. apply str_eqb_eq in E. rewrite E. reflexivity.
+        rewrite exists_map_table; [exact O|]. intros x E. apply str_eqb_eq in E. cbn. congruence.
     + exists (f t). unfold the_table. cbn [e_decl e_db db_tables]. rewrite table_of_set_cols.
       split; [exact F'|]. intros x Hx _. unfold cells_kept. cbn [f t_cols t_rows]. rewrite map_map.
       apply map_ext. intro r. apply cell_add. exact Hx.
@@ -291,18 +285,14 @@ Proof.
     set (f := fun t1 : table => {| t_name := table_of (e_decl s); t_cols := class_cols dc';
                                    t_rows := map (project (t_cols t1) (class_cols dc')) (t_rows t1) |}).
     assert (F' : find_table (map_table (e_db s) (table_of (e_decl s)) f) (table_of (e_decl s)) = Some (f t)).
-    { unfold map_table. clear -F. induction (db_tables (e_db s)) as [|y ts IH]; [discriminate|].
-      cbn in F |- *. destruct (str_eqb (t_name y) (table_of (e_decl s))) eqn:E.
-      - inversion F; subst. cbn. rewrite str_eqb_refl. reflexivity.
-      - cbn. rewrite E. apply IH. exact F. }
+    { unfold map_table. apply find_map_table; [|exact F].
+      intros x E. apply str_eqb_eq in E. cbn. congruence. }
     split; [reflexivity|]. split.
-    + exists (f t). cbn [e_decl e_db db_tables]. unfold dc' at 1 2 4. rewrite table_of_set_cols.
+    + exists (f t). cbn [e_decl e_db db_tables]. change (table_of dc') with (table_of (e_decl s)).
       split; [exact F'|]. split; [reflexivity|].
       rewrite table_exists_alt in O |- *. cbn [db_tables]. unfold map_table.
-      rewrite <- O. clear. induction (db_tables (e_db s)) as [|y ts IH]; [reflexivity|].
-      cbn. destruct (str_eqb (t_name y) (table_of (e_decl s))) eqn:E; rewrite IH; [|reflexivity].
-      cbn [f t_name]. apply str_eqb_eq in E. rewrite E. reflexivity.
-    + exists (f t). unfold the_table. cbn [e_decl e_db db_tables]. unfold dc' at 1. rewrite table_of_set_cols.
+      rewrite exists_map_table; [exact O|]. intros x E. apply str_eqb_eq in E. cbn. congruence.
+    + exists (f t). unfold the_table. cbn [e_decl e_db db_tables]. change (table_of dc') with (table_of (e_decl s)).
       split; [exact F'|]. intros x _ Hx. unfold cells_kept. cbn [f t_cols t_rows] in Hx |- *. rewrite map_map.
       apply map_ext. intro r. apply cell_project. exact Hx.
 Qed.
@@ -331,7 +321,7 @@ Proof.
     destruct (IH s1 t1 W1 Hops T1) as (E2 & W2 & t2 & T2 & C2 & K2).
     destruct (evo_run s1 ops) as [s2 e2] eqn:ER. cbn [fst snd] in *. subst e1 e2.
     split; [reflexivity|]. split; [exact W2|]. exists t2. split; [exact T2|]. split; [exact C2|].
-    intros x Hx [Hk1 Hk2]. unfold cells_kept in *.
+    cbn [kept]. rewrite ES. cbn [fst]. intros x Hx [Hk1 Hk2]. unfold cells_kept in *.
     assert (Hx1 : In x (t_cols t1)).
     { destruct W1 as (t1' & F1 & C1 & _). unfold the_table in T1. rewrite F1 in T1. inversion T1; subst.
       rewrite C1. exact Hk1. }
